@@ -9,10 +9,11 @@ def get_seams(env):
     seams = env.cache.get('seams')
     if seams is None:
         import diskcache.core as core
+        import diskcache.fanout as fanout
         import diskcache.recipes as recipes
 
         seams = Seams()
-        seams.install_clock([core, recipes])
+        seams.install_clock([core, fanout, recipes])
         seams.install_io(core)
         env.cache['seams'] = seams
     seams.clock.adv = 0.0
